@@ -368,9 +368,25 @@ fn main() {
                         lt.push(format!("(mk_wline {} {} {} {})", start, coq::bytes(l), w, fw));
                     }
                     let lterms = coq::list(lt.iter(), |t| t.clone());
+                    // write_wrapped on the same text, recorded in three labelled regions
+                    let content = recorder(&text, &mut rng);
+                    let wrapped = jjv::catch(|| {
+                        let mut out = Vec::new();
+                        let mut f = PlainTextFormatter::new(&mut out);
+                        text_util::write_wrapped(&mut f, &content, width).unwrap();
+                        drop(f);
+                        out
+                    });
+                    let (wrapped, p) = match wrapped {
+                        Some(o) => (o, p),
+                        None => {
+                            ctx.panicked();
+                            (vec![], true)
+                        }
+                    };
                     let term = coq::app(
                         "CWrap",
-                        &[coq::bytes(bytes), coq::n(width as u64), lterms, coq::b(p)],
+                        &[coq::bytes(bytes), coq::n(width as u64), lterms, coq::bytes(&wrapped), coq::b(p)],
                     );
                     let shape = format!("wrap soft_breaks={}", soft.min(4));
                     ctx.emit(i, term, soft > 0, &shape);
